@@ -6,6 +6,7 @@ E1 = {
                                  "Inference._prune_bayesian_model"]),
     "C02": (["contracts.c01"], ["Inference._prune_bayesian_model"]),
     "C03": (["contracts.c01"], ["Inference._prune_bayesian_model"]),
+    "C05": (["contracts.c05"], ["BayesianNetwork.check_model"]),
     "C08": (["contracts.c08"], ["DAG._get_ancestors_of", "DAG.active_trail_nodes", "DAG.is_dconnected", "DAG.get_markov_blanket",
                                  "BayesianNetwork.get_markov_blanket", "DAG.moralize", "DAG.get_ancestral_graph", "DAG.local_independencies", "DAG.minimal_dseparator",
                                  "DAG.get_independencies"]),
